@@ -9,7 +9,9 @@ Steps == {500, 1000, 1500}
 Init == tps = <<>> /\ last \in {0, 2000, 3000}
 Next == /\ Len(tps) < MaxPoints
         /\ \E bl \in BLs : \E st \in Steps :
-             tps' = Append(tps, [t |-> IF tps = <<>> THEN 0 ELSE tps[Len(tps)].t + st, bl |-> bl])
+             \* the first point before, at or after time 0 (the aggregator lets it start at 0 whatever its time)
+             \E t0 \in (IF tps = <<>> THEN {0 - 1000, 0, 500} ELSE {0}) :
+             tps' = Append(tps, [t |-> IF tps = <<>> THEN t0 ELSE tps[Len(tps)].t + st, bl |-> bl])
         /\ UNCHANGED last
 (* the choice is one of the possible ones, and ties exist in the explored space (not vacuous) *)
 ChoiceInv == tps # <<>> => ChosenBeatLen(tps, last) \in PossibleBeatLens(tps, last)
